@@ -70,7 +70,7 @@ def check(case, M):
     if "trivial" in r:
         return {"key": C.key_of(case), "nontrivial": False, "tags": ["trivial:" + r["trivial"]], "failures": []}
     failures = []
-    fid = "C03-F5" if r["float_exact"] is False else None
+    fid = C.raise_finding(r, "C03") or ("C03-F5" if r["float_exact"] is False else None)
 
     def fail(kind, what, detail):
         if any(f["what"] == what for f in failures):
@@ -87,7 +87,10 @@ def check(case, M):
     ys = r["ys"]
     cs = [C.cost_of(g, costs, p, g.start) for p in ys]
     worst = 0
-    if r["err"] is None and all(c is not None for c in cs) and ys:
+    degenerate = r["rec"] and C.zero_cycle(g, costs)
+    if degenerate:
+        pass        # a cycle of zero-cost rules: infinitely many programs of one cost, no order to check
+    elif r["err"] is None and all(c is not None for c in cs) and ys:
         mx, arg = cs[0], 0
         for j in range(1, len(cs)):
             if mx - cs[j] > worst:
@@ -110,7 +113,7 @@ def check(case, M):
             miss = sorted(E.show(p) for p, c, _ in r["lang"] if c < bound and E.show(p) not in Y)
             if miss:
                 fail("oracle", "a cheaper program was not yielded before (beyond the slack)", f"{len(miss)} e.g. {miss[:3]} (< {bound})")
-        elif not C.zero_cycle(g, costs):
+        else:
             try:
                 owed = C.below(g, costs, g.start, bound - 1, 60000)
                 miss = sorted(E.show(p) for p, _ in owed if E.show(p) not in Y)
@@ -122,7 +125,7 @@ def check(case, M):
             fail("oracle", "the enumeration of an infinite language stops", f"after {len(ys)} programs")
         if len(Y) != len(ys):
             fail("oracle", "a program is yielded twice", "")
-    elif r["err"] is not None and not (fid is None and equal_costs(r)):
+    elif r["err"] is not None:
         fail("oracle", "the enumerator raises instead of enumerating", r["err"])
     elif any(c is None for c in cs):
         fail("oracle", "a program outside the language is yielded", "")
@@ -130,16 +133,13 @@ def check(case, M):
     tags.append(f"inversion:{worst if worst <= 3 else ('4-16' if worst <= 16 else '>16')}")
     if case.get("take"):
         tags.append("prefix")
-    if r["err"] is not None and equal_costs(r):
-        tags.append("all-costs-equal(C02-F4 region, raises)")
+    if degenerate:
+        tags.append("zero-cost-cycle(correspondence only)")
+    if C.raise_finding(r, "C03"):
+        tags.append(f"raises({C.raise_finding(r, 'C03')} region)")
     ncost = len(set(cs))
     nontrivial = len(ys) >= 10 and ncost >= 2 and ncost < len(ys)
     return {"key": C.key_of(case), "nontrivial": nontrivial, "tags": tags, "failures": failures, "sample": C.sample_of(case, r)}
-
-
-def equal_costs(r):
-    cs = {c for row in r["costs"].values() for c in row.values()}
-    return len(cs) == 1 and any(args for rs in r["g"].rules.values() for args, _ in rs.values())
 
 
 # --------------------------------------------------------------------------- a single CDQueue
